@@ -99,6 +99,21 @@ class Extractor(object):
         return term
 
 
+def flat_rets(rets):
+    """`return a if c else b` is two returns under c / not c (same reading as the if/else statement)."""
+    out = []
+    for r in rets:
+        stack = [(r.term, list(r.conds))]
+        while stack:
+            t, conds = stack.pop(0)
+            if t[0] == "phi" and r.kind in ("return", "yield"):
+                stack.insert(0, (t[3], conds + [_norm_cond(t[1], False)]))
+                stack.insert(0, (t[2], conds + [_norm_cond(t[1], True)]))
+            else:
+                out.append(Ret(t, conds, r.node, r.kind))
+    return out
+
+
 def _polar(c, p):
     return c if p else mknot(c)
 
@@ -121,6 +136,44 @@ _RE_FUNCS = {"re.match": 2, "re.search": 2, "re.fullmatch": 2, "re.sub": 4, "re.
 def is_regex_test(t):
     """result of a regex test (a match object or None): truthiness == `is not None`"""
     return t[0] == "call" and (t[1] in ("re.match", "re.search", "re.fullmatch") or t[1].rpartition(".")[2] in REGEX_TESTS and t[1].startswith("ural."))
+
+
+def mkbinop(op, l, r):
+    """string concatenation is kept left-nested with adjacent constants folded: ('a' + 'b') + x == 'ab' + x == 'a' + ('b' + x)"""
+    if op == "Add":
+        if r[0] == "binop" and r[1] == "Add" and _strish(r[2]) :
+            # l + (r1 + r2) -> (l + r1) + r2   (only when the pieces are visibly strings)
+            if _strish(l):
+                return mkbinop("Add", mkbinop("Add", l, r[2]), r[3])
+        if l[0] == "const" and r[0] == "const" and isinstance(l[1], str) and isinstance(r[1], str):
+            return ("const", l[1] + r[1])
+        if l[0] == "binop" and l[1] == "Add" and l[3][0] == "const" and r[0] == "const" and isinstance(l[3][1], str) and isinstance(r[1], str):
+            return ("binop", "Add", l[2], ("const", l[3][1] + r[1]))
+    return ("binop", op, l, r)
+
+
+def _strish(t):
+    return (t[0] == "const" and isinstance(t[1], str)) or (t[0] == "binop" and t[1] == "Add" and (_strish(t[2]) or _strish(t[3])))
+
+
+def strip_inl(t):
+    """the term with the markers of inlined helpers removed (the helper's body stands for the call)"""
+    from . import facts as _F
+    memo = {}
+
+    def go(x):
+        if not isinstance(x, tuple) or not x:
+            return x
+        k = id(x)
+        if k in memo:
+            return memo[k][1]
+        y = x
+        while y[0] == "inl":
+            y = y[2]
+        r = _F.map_children(y, go)
+        memo[k] = (x, r)
+        return r
+    return go(t)
 
 
 def mkcmp(op, l, r):
@@ -220,7 +273,7 @@ class _State(object):
                 self.assign(tgt, v)
         elif isinstance(st, ast.AugAssign):
             cur = self.expr(st.target) if isinstance(st.target, (ast.Name, ast.Attribute, ast.Subscript)) else ("unknown", "aug")
-            v = ("binop", type(st.op).__name__, cur, self.expr(st.value))
+            v = mkbinop(type(st.op).__name__, cur, self.expr(st.value))
             self.assign(st.target, v)
         elif isinstance(st, ast.AnnAssign):
             if st.value is not None:
@@ -410,7 +463,7 @@ class _State(object):
         if isinstance(n, ast.Call):
             return self.call(n)
         if isinstance(n, ast.BinOp):
-            return ("binop", type(n.op).__name__, self.expr(n.left), self.expr(n.right))
+            return mkbinop(type(n.op).__name__, self.expr(n.left), self.expr(n.right))
         if isinstance(n, ast.UnaryOp):
             if isinstance(n.op, ast.Not):
                 return mknot(self.expr(n.operand))
